@@ -92,6 +92,7 @@ static inline long myth_sleep_queue_enq(myth_sleep_queue_t * q,
     q->head = t;
   }
   q->tail = t;
+  MYTH_VERIF_EV2("SqEnq", VSQ(q), VD(t));
   myth_spin_unlock_body(q->ilock);
   return spin_failed;		/* done */
 }
@@ -106,6 +107,7 @@ static inline myth_sleep_queue_item_t myth_sleep_queue_deq(myth_sleep_queue_t * 
       q->tail = 0;
     }
   }
+  MYTH_VERIF_EV2("SqDeq", VSQ(q), VD(head));
   myth_spin_unlock_body(q->ilock);
   return head;		/* done */
 }
@@ -227,9 +229,13 @@ static inline void myth_sleep_stack_destroy(myth_sleep_stack_t * s) {
 
 static inline myth_sleep_queue_item_t myth_sleep_stack_pop(myth_sleep_stack_t * s) {
   while (1) {
+    MYTH_VERIF_FPOINT("stpop_ld");
     myth_sleep_queue_item_t x = s->top;
+    if (x == 0) MYTH_VERIF_EV2("StPop", VSQ(s), 0);
     if (x == 0) return x;
+    MYTH_VERIF_FPOINT("stpop_cas");
     if (__sync_bool_compare_and_swap(&s->top, x, x->next)) {
+      MYTH_VERIF_EV2("StPop", VSQ(s), VD(x));
       return x;
     }
   }
@@ -237,9 +243,12 @@ static inline myth_sleep_queue_item_t myth_sleep_stack_pop(myth_sleep_stack_t * 
 
 static inline long myth_sleep_stack_push(myth_sleep_stack_t * s, myth_sleep_queue_item_t x) {
   while (1) {
+    MYTH_VERIF_FPOINT("stpush_ld");
     myth_sleep_queue_item_t t = s->top;
     x->next = t;
+    MYTH_VERIF_FPOINT("stpush_cas");
     if (__sync_bool_compare_and_swap(&s->top, t, x)) {
+      MYTH_VERIF_EV2("StPush", VSQ(s), VD(x));
       return 0;
     }
   }
